@@ -5,7 +5,13 @@
 //!            bijective base-26 column-letter function.
 //! The token streams are produced by the Lean encoders (`Spec/Formula.lean`, driver request `enc`), i.e. the
 //! bytes fed to the real decoders are the bytes the theorems talk about.
-use calamine::verif_hooks::utils::{push_column, FTAB, FTAB_ARGC, FTAB_LEN};
+//! Built without the `hooks` feature (the crate's `verif-hooks` are unavailable) the same stages run through the
+//! public API only: every token stream is placed in the FORMULA / BrtFmla record of a one-cell workbook and read
+//! back with `worksheet_formula` (module `nohooks`), the function table comes from the Lean driver (`ftab`, i.e. the
+//! table translated from the source), columns 0..=16383 are read from one sheet of PtgRef formulas.
+#[cfg(feature = "hooks")]
+use calamine::verif_hooks::utils::{push_column, FTAB, FTAB_ARGC};
+#[cfg(feature = "hooks")]
 use calamine::verif_hooks::{xls as hx, xlsb as hb};
 use calamine::{HeaderRow, Ods, Reader, Xls, Xlsb, Xlsx};
 use std::collections::BTreeMap;
@@ -115,6 +121,7 @@ impl Ctx {
         }
     }
     /// the extern-sheet table as the xlsb workbook reader resolves it (`Formula.resolveExtern`)
+    #[cfg_attr(not(feature = "hooks"), allow(dead_code))]
     fn xlsb_sheets(&self) -> Vec<String> {
         self.xtis
             .iter()
@@ -130,6 +137,7 @@ impl Ctx {
     fn has_dangling(&self) -> bool {
         self.xtis.iter().any(|&i| i < 0 || i as usize >= self.sheets.len())
     }
+    #[cfg_attr(not(feature = "hooks"), allow(dead_code))]
     fn names_pairs(&self) -> Vec<(String, String)> {
         self.names.iter().map(|n| (n.clone(), String::new())).collect()
     }
@@ -362,7 +370,7 @@ impl Expr {
                 y.render(ctx, out);
             }
             Expr::Func(_, f, args) | Expr::FuncVar(_, f, args) => {
-                out.push_str(FTAB[*f as usize]);
+                out.push_str(&tab().names[*f as usize]);
                 out.push('(');
                 for (i, a) in args.iter().enumerate() {
                     if i > 0 {
@@ -630,17 +638,17 @@ fn gen_expr(rng: &mut Rng, depth: u32, ctx: &Ctx, o: &GenOpts) -> Expr {
             // fixed arity: indices whose table arity is small
             let cls = rng.below(3) as u8;
             let idx = loop {
-                let i = rng.below(FTAB_LEN as u64) as usize;
-                if FTAB_ARGC[i] <= 4 {
+                let i = rng.below(tab().names.len() as u64) as usize;
+                if tab().argc[i] <= 4 {
                     break i;
                 }
             };
-            let args = (0..FTAB_ARGC[idx]).map(|_| gen_expr(rng, depth - 1, ctx, o)).collect();
+            let args = (0..tab().argc[idx]).map(|_| gen_expr(rng, depth - 1, ctx, o)).collect();
             Expr::Func(cls, idx as u16, args)
         }
         _ => {
             let cls = rng.below(3) as u8;
-            let idx = rng.below(FTAB_LEN as u64) as u16;
+            let idx = rng.below(tab().names.len() as u64) as u16;
             let n = rng.range(0, 5);
             let args = (0..n).map(|_| gen_expr(rng, depth - 1, ctx, o)).collect();
             Expr::FuncVar(cls, idx, args)
@@ -652,6 +660,7 @@ fn gen_expr(rng: &mut Rng, depth: u32, ctx: &Ctx, o: &GenOpts) -> Expr {
 // running one case
 // ------------------------------------------------------------------------------------------------
 
+#[cfg_attr(not(feature = "hooks"), allow(dead_code))]
 fn canon(r: Result<Result<String, String>, String>) -> String {
     match r {
         Ok(Ok(s)) => format!("ok:{s}"),
@@ -673,16 +682,221 @@ fn panic_class(msg: &str) -> &'static str {
     }
 }
 
-fn impl_xls(rgce: &[u8], ctx: &Ctx) -> String {
-    let names = ctx.names_pairs();
-    let xt = ctx.xti_triples();
-    canon(guarded(|| hx::c14_formula_text(rgce, &ctx.sheets, &names, &xt, 1200)))
+/// the function table the oracle and the generators use: with hooks the crate's own `FTAB` / `FTAB_ARGC`, without
+/// them the table the translator read from `src/utils.rs` (driver request `ftab`); either way the golden stage
+/// compares it with the names written down from MS-XLS
+struct Tab {
+    names: Vec<String>,
+    argc: Vec<u8>,
 }
 
-fn impl_xlsb(rgce: &[u8], ctx: &Ctx) -> String {
+static TAB: std::sync::OnceLock<Tab> = std::sync::OnceLock::new();
+
+fn tab() -> &'static Tab {
+    TAB.get().expect("function table not initialised")
+}
+
+#[cfg(feature = "hooks")]
+fn init_tab(_drv: &mut Driver) {
+    let _ = TAB.set(Tab { names: FTAB.iter().map(|s| s.to_string()).collect(), argc: FTAB_ARGC.to_vec() });
+}
+
+#[cfg(not(feature = "hooks"))]
+fn init_tab(drv: &mut Driver) {
+    let reply = drv.ask("ftab");
+    let mut t = Tab { names: vec![], argc: vec![] };
+    for w in reply.split_whitespace() {
+        let (h, a) = w.split_once(':').unwrap_or_else(|| panic!("driver request ftab: bad word {w}"));
+        t.names.push(if h == "-" { String::new() } else { String::from_utf8(unhex(h)).unwrap() });
+        t.argc.push(a.parse().unwrap());
+    }
+    assert!(!t.names.is_empty(), "driver request ftab: {reply}");
+    let _ = TAB.set(t);
+}
+
+/// cases the build without hooks cannot present to the decoder through a file (counted in the report)
+#[cfg(not(feature = "hooks"))]
+static UNREACHABLE: std::sync::atomic::AtomicU64 = std::sync::atomic::AtomicU64::new(0);
+
+/// `parse_formula` (xls) on `rgce` = cce + tokens; None: not presentable in this build
+#[cfg(feature = "hooks")]
+fn impl_xls(rgce: &[u8], ctx: &Ctx) -> Option<String> {
+    let names = ctx.names_pairs();
+    let xt = ctx.xti_triples();
+    Some(canon(guarded(|| hx::c14_formula_text(rgce, &ctx.sheets, &names, &xt, 1200))))
+}
+
+#[cfg(feature = "hooks")]
+fn impl_xlsb(rgce: &[u8], ctx: &Ctx) -> Option<String> {
     let names = ctx.names_pairs();
     let sh = ctx.xlsb_sheets();
-    canon(guarded(|| hb::c14_formula_text(rgce, &sh, &names)))
+    Some(canon(guarded(|| hb::c14_formula_text(rgce, &sh, &names))))
+}
+
+#[cfg(not(feature = "hooks"))]
+fn impl_xls(rgce: &[u8], ctx: &Ctx) -> Option<String> {
+    let r = nohooks::xls_text(rgce, ctx);
+    if r.is_none() {
+        UNREACHABLE.fetch_add(1, std::sync::atomic::Ordering::Relaxed);
+    }
+    r
+}
+
+#[cfg(not(feature = "hooks"))]
+fn impl_xlsb(rgce: &[u8], ctx: &Ctx) -> Option<String> {
+    let r = nohooks::xlsb_text(rgce, ctx);
+    if r.is_none() {
+        UNREACHABLE.fetch_add(1, std::sync::atomic::Ordering::Relaxed);
+    }
+    r
+}
+
+/// the decoders reached through the public API only: the token stream is the formula of the one formula cell of a
+/// generated workbook whose sheets / defined names / XTI table are the context
+#[cfg(not(feature = "hooks"))]
+mod nohooks {
+    use super::*;
+
+    const HOST: &str = "__host";
+
+    /// the sheet that carries the cell: the first sheet of the context, an extra one when the context has none
+    /// (then an XTI entry 0 would name the extra sheet: not presentable)
+    fn host(ctx: &Ctx) -> Option<String> {
+        match ctx.sheets.first() {
+            Some(s) if ctx.sheets.iter().filter(|x| *x == s).count() == 1 => Some(s.clone()),
+            Some(_) => None,
+            None if ctx.xtis.contains(&0) => None,
+            None => Some(HOST.to_string()),
+        }
+    }
+
+    fn sheet_names(ctx: &Ctx) -> Vec<String> {
+        if ctx.sheets.is_empty() {
+            vec![HOST.to_string()]
+        } else {
+            ctx.sheets.clone()
+        }
+    }
+
+    /// `rgce` (cce + tokens) = the bytes of a FORMULA record from offset 20 on, exactly what the reader hands to
+    /// `parse_formula`; its error is reported inside the documented fallback text
+    pub fn xls_text(rgce: &[u8], ctx: &Ctx) -> Option<String> {
+        let host = host(ctx)?;
+        if rgce.len() + 20 > 0xFFFF {
+            return None;
+        }
+        let mut rng = Rng::new(1);
+        let mut book = XlsBook::new();
+        book.xtis = ctx.xti_triples();
+        for n in &ctx.names {
+            book.names.push(XlsName { name: n.clone(), rgce: vec![0x3a, 0, 0, 0, 0, 0, 0], name_wide: None, itab: 0 });
+        }
+        for name in sheet_names(ctx) {
+            let mut sh = XlsSheet::new(&name);
+            if name == host {
+                let mut d = vec![0u8; 6];
+                d.extend_from_slice(&1.0f64.to_le_bytes());
+                d.extend_from_slice(&[0u8; 6]);
+                d.extend_from_slice(rgce);
+                sh.cells.push(XlsCell::raw(0x0006, d));
+            }
+            book.sheets.push(sh);
+        }
+        let bytes = book.to_bytes(&mut rng);
+        let r = guarded(|| match Xls::new(Cursor::new(bytes)) {
+            Ok(mut wb) => match wb.worksheet_formula(&host) {
+                Ok(rg) => {
+                    let t = rg.get_value((0, 0)).cloned().unwrap_or_default();
+                    match t.strip_prefix("Unrecognised formula for cell (0, 0): ") {
+                        Some(e) => format!("err:{e}"),
+                        None => format!("ok:{t}"),
+                    }
+                }
+                Err(e) => format!("formula-range-err:{e:?}"),
+            },
+            Err(e) => format!("open-err:{e:?}"),
+        });
+        Some(r.unwrap_or_else(|p| format!("panic:{p}")))
+    }
+
+    /// `rgce` = the token bytes of a BrtFmla record; a decoder error is the error of `worksheet_formula`
+    pub fn xlsb_text(rgce: &[u8], ctx: &Ctx) -> Option<String> {
+        let host = host(ctx)?;
+        let mut book = XlsbBook::new();
+        book.framing = Framing::Minimal;
+        book.extern_sheets = ctx.xtis.iter().map(|&i| (i as i32, i as i32)).collect();
+        for n in &ctx.names {
+            book.names.push(DefinedName { name: n.clone(), rgce: vec![0x3a, 0, 0, 0, 0, 0, 0, 0, 0], itab: 0xFFFF_FFFF });
+        }
+        for name in sheet_names(ctx) {
+            let mut sh = XlsbSheet::new(&name);
+            if name == host {
+                sh.set(0, 0, BVal::real(1.0)).fmla = Some(Fmla { flags: 0, rgce: rgce.to_vec(), rgcb: vec![] });
+            }
+            book.sheets.push(sh);
+        }
+        let bytes = book.to_bytes();
+        let r = guarded(|| match Xlsb::new(Cursor::new(bytes)) {
+            Ok(mut wb) => match wb.worksheet_formula(&host) {
+                Ok(rg) => format!("ok:{}", rg.get_value((0, 0)).cloned().unwrap_or_default()),
+                Err(e) => format!("err:{e:?}"),
+            },
+            Err(e) => format!("open-err:{e:?}"),
+        });
+        Some(r.unwrap_or_else(|p| format!("panic:{p}")))
+    }
+
+    /// column letters 0..=16383 (the 14-bit column field): one xlsb sheet, cell n holds the formula PtgRef(row 0,
+    /// column n, both relative), text = letters + "1"
+    pub fn col_table() -> &'static Vec<String> {
+        static T: std::sync::OnceLock<Vec<String>> = std::sync::OnceLock::new();
+        T.get_or_init(|| {
+            let mut book = XlsbBook::new();
+            book.framing = Framing::Minimal;
+            let mut sh = XlsbSheet::new("S1");
+            for n in 0..16384u32 {
+                let mut rgce = vec![0x24u8, 0, 0, 0, 0];
+                rgce.extend_from_slice(&(n as u16 | 0xC000).to_le_bytes());
+                sh.set(n / 128, n % 128, BVal::real(1.0)).fmla = Some(Fmla { flags: 0, rgce, rgcb: vec![] });
+            }
+            book.sheets.push(sh);
+            let bytes = book.to_bytes();
+            let r = guarded(|| -> Result<Vec<String>, String> {
+                let mut wb = Xlsb::new(Cursor::new(bytes)).map_err(|e| format!("{e:?}"))?;
+                let rg = wb.worksheet_formula("S1").map_err(|e| format!("{e:?}"))?;
+                Ok((0..16384u32)
+                    .map(|n| {
+                        let t = rg.get_value((n / 128, n % 128)).cloned().unwrap_or_default();
+                        t.strip_suffix('1').map(|x| x.to_string()).unwrap_or(format!("<{t}>"))
+                    })
+                    .collect())
+            });
+            match r {
+                Ok(Ok(v)) => v,
+                Ok(Err(e)) => vec![format!("file-err:{e}"); 16384],
+                Err(p) => vec![format!("panic:{p}"); 16384],
+            }
+        })
+    }
+
+    /// `parse_defined_names` through the Lbl record of a workbook with one sheet `S1` and four XTI entries naming
+    /// it: the reported formula is `<sheet>!<text>` with the sheet the ixti resolves to
+    pub fn defined_name(rgce: &[u8]) -> String {
+        let mut rng = Rng::new(1);
+        let mut book = XlsBook::new();
+        book.xtis = vec![(0, 0, 0); 4];
+        book.names.push(XlsName { name: "N".into(), rgce: rgce.to_vec(), name_wide: None, itab: 0 });
+        book.sheets.push(XlsSheet::new("S1"));
+        let bytes = book.to_bytes(&mut rng);
+        match guarded(|| Xls::new(Cursor::new(bytes))) {
+            Ok(Ok(wb)) => match wb.defined_names().iter().find(|(n, _)| n == "N") {
+                Some((_, f)) => format!("ok:{f}"),
+                None => "name-missing".into(),
+            },
+            Ok(Err(e)) => format!("err:{e:?}"),
+            Err(_) => "panic".into(),
+        }
+    }
 }
 
 /// `ok:<hex>` / `err:<hex>` / `panic` from the driver → comparable text; `<num:bits>` → Rust's Display
@@ -766,7 +980,12 @@ fn run_expr(e: &Expr, ctx: &Ctx, drv: &mut Driver) -> Vec<Fail> {
             continue;
         }
         let model = decode_model(field(&reply, mk));
-        let imp_full = if *fmt == "xls" { impl_xls(&bytes, ctx) } else { impl_xlsb(&bytes, ctx) };
+        let Some(imp_full) = (if *fmt == "xls" { impl_xls(&bytes, ctx) } else { impl_xlsb(&bytes, ctx) }) else {
+            if model != expect {
+                fails.push(Fail { kind: "model_vs_spec", sig: format!("{fmt}_{}", e.kind()), imp: String::new(), model, expect: expect.clone() });
+            }
+            continue;
+        };
         let imp = strip_panic(&imp_full);
         if imp != expect {
             fails.push(Fail { kind: "impl_vs_spec", sig: format!("{fmt}_{}", e.kind()), imp: imp_full.clone(), model: model.clone(), expect: expect.clone() });
@@ -805,7 +1024,9 @@ fn shrink_expr(e: &Expr, ctx: &Ctx, kind: &str, fmt: &str, drv: &mut Driver) -> 
 fn run_raw(fmt: &str, bytes: &[u8], ctx: &Ctx, drv: &mut Driver, sig_override: Option<&str>) -> Vec<Fail> {
     let mut fails = vec![];
     let model = decode_model(&drv.ask(&format!("{fmt} {} {}", hex(bytes), ctx.wire())));
-    let imp_full = if fmt == "xls" { impl_xls(bytes, ctx) } else { impl_xlsb(bytes, ctx) };
+    let Some(imp_full) = (if fmt == "xls" { impl_xls(bytes, ctx) } else { impl_xlsb(bytes, ctx) }) else {
+        return fails;
+    };
     let imp = strip_panic(&imp_full);
     if let Some(msg) = imp_full.strip_prefix("panic:") {
         let sig = sig_override.map(|s| s.to_string()).unwrap_or(format!("{fmt}_panic_{}", panic_class(msg)));
@@ -1100,44 +1321,63 @@ fn ftab_golden() -> Vec<(usize, &'static str, Option<u8>)> {
 
 // ------------------------------------------------------------------------------------------------
 
-fn impl_col(n: u32) -> String {
-    match guarded(|| {
+/// largest column the build can present to `push_column`: any `u32` through the hook (the sweep covers the u16
+/// domain), the 14-bit column field of a PtgRef through a file
+#[cfg(feature = "hooks")]
+const COL_MAX: u32 = 65535;
+#[cfg(not(feature = "hooks"))]
+const COL_MAX: u32 = 16383;
+
+#[cfg(feature = "hooks")]
+fn impl_col(n: u32) -> Option<String> {
+    Some(match guarded(|| {
         let mut s = String::new();
         push_column(n, &mut s);
         s
     }) {
         Ok(s) => s,
         Err(p) => format!("panic:{p}"),
-    }
+    })
+}
+
+#[cfg(not(feature = "hooks"))]
+fn impl_col(n: u32) -> Option<String> {
+    nohooks::col_table().get(n as usize).cloned()
 }
 
 fn run_col(n: u32, drv: &mut Driver, rep: &mut Report) {
-    let imp = impl_col(n);
     let model = drv.ask(&format!("col {n}"));
     let expect = col_oracle(n);
     let input = format!("col {n}");
     rep.case(&input, n >= 26);
-    if imp != expect {
-        rep.fail("impl_vs_spec", "push_column", &input, &imp, &model, &expect);
-    }
-    if imp != model {
-        rep.fail("impl_vs_model", "push_column", &input, &imp, &model, &expect);
+    let imp = impl_col(n);
+    match &imp {
+        Some(imp) => {
+            if *imp != expect {
+                rep.fail("impl_vs_spec", "push_column", &input, imp, &model, &expect);
+            }
+            if *imp != model {
+                rep.fail("impl_vs_model", "push_column", &input, imp, &model, &expect);
+            }
+        }
+        None => rep.count("skipped.hooks_unavailable.col_above_16383"),
     }
     if model != expect {
-        rep.fail("model_vs_spec", "push_column", &input, &imp, &model, &expect);
+        rep.fail("model_vs_spec", "push_column", &input, &imp.unwrap_or_default(), &model, &expect);
     }
 }
 
-/// complete sweep of the u16 column domain: per value impl vs oracle, per block impl vs model (checksum)
+/// complete sweep of the column domain (0..=COL_MAX): per value impl vs oracle, per block impl vs model (checksum)
 fn sweep_cols(drv: &mut Driver, rep: &mut Report) {
     let block = 4096u32;
     let mut lo = 0u32;
     let mut first_bad: Option<u32> = None;
-    while lo <= 65535 {
-        let hi = (lo + block - 1).min(65535);
+    let imp_col = |n: u32| impl_col(n).unwrap_or_default();
+    while lo <= COL_MAX {
+        let hi = (lo + block - 1).min(COL_MAX);
         let mut buf = Vec::with_capacity(block as usize * 4);
         for n in lo..=hi {
-            let s = impl_col(n);
+            let s = imp_col(n);
             if s != col_oracle(n) && first_bad.is_none() {
                 first_bad = Some(n);
             }
@@ -1151,7 +1391,7 @@ fn sweep_cols(drv: &mut Driver, rep: &mut Report) {
             let mut found = false;
             for n in lo..=hi {
                 let m = drv.ask(&format!("col {n}"));
-                let i = impl_col(n);
+                let i = imp_col(n);
                 if m != i {
                     rep.fail("impl_vs_model", "push_column", &format!("col {n}"), &i, &m, &col_oracle(n));
                     found = true;
@@ -1166,9 +1406,9 @@ fn sweep_cols(drv: &mut Driver, rep: &mut Report) {
         lo = hi + 1;
     }
     if let Some(n) = first_bad {
-        rep.fail("impl_vs_spec", "push_column", &format!("col {n}"), &impl_col(n), "", &col_oracle(n));
+        rep.fail("impl_vs_spec", "push_column", &format!("col {n}"), &imp_col(n), "", &col_oracle(n));
     }
-    rep.count("col_sweep_complete_0_65535");
+    rep.count(&format!("col_sweep_complete_0_{COL_MAX}"));
 }
 
 fn report_expr_case(e: &Expr, ctx: &Ctx, drv: &mut Driver, rep: &mut Report, shrunk: &mut u32) {
@@ -1737,10 +1977,22 @@ fn run_dn(bytes: &[u8], drv: &mut Driver, rep: &mut Report) {
             None => r,
         }
     };
+    #[cfg(feature = "hooks")]
     let imp = match guarded(|| hx::c14_defined_name(bytes)) {
         Ok(Ok((ix, t))) => format!("ok:{} {t}", ix.map(|i| i.to_string()).unwrap_or("-".into())),
         Ok(Err(e)) => format!("err:{e}"),
         Err(_) => "panic".to_string(),
+    };
+    // without hooks: the Lbl record of a one-sheet workbook whose four XTI entries name the sheet; the reader joins
+    // the sheet the ixti resolves to and the text, the model's answer is joined the same way
+    #[cfg(not(feature = "hooks"))]
+    let (imp, model) = {
+        let joined = match model.strip_prefix("ok:").and_then(|r| r.split_once(' ')) {
+            Some(("-", t)) => format!("ok:{t}"),
+            Some((ix, t)) => format!("ok:{}!{t}", if ix.parse::<usize>().map_or(false, |i| i < 4) { "S1" } else { "#REF" }),
+            None => model.clone(),
+        };
+        (nohooks::defined_name(bytes), joined)
     };
     if imp != model {
         rep.fail("impl_vs_model", "defined_name", &input, &imp, &model, "");
@@ -2235,7 +2487,7 @@ fn deep_child(n: usize) {
     let rgce = deep_rgce(n);
     let h = std::thread::Builder::new()
         .stack_size(256 * 1024)
-        .spawn(move || canon(guarded(|| hb::c14_formula_text(&rgce, &[], &[]))))
+        .spawn(move || impl_xlsb(&rgce, &Ctx { sheets: vec![], names: vec![], xtis: vec![] }).unwrap_or("unreachable".into()))
         .expect("spawn");
     let r = h.join().unwrap_or_else(|_| "panic:thread".into());
     println!("RESULT {r}");
@@ -2318,6 +2570,7 @@ fn main() {
         }
     }
     let mut drv = Driver::spawn(&args.driver);
+    init_tab(&mut drv);
     let mut rep = Report::new(
         "C14",
         "(1) push_column: every column 0..=65535, real function vs independent bijective base-26 oracle (per value) and vs \
@@ -2354,16 +2607,17 @@ fn main() {
         for (i, name, argc) in ftab_golden() {
             rep.count("ftab_golden");
             let input = format!("ftab {i}");
-            if FTAB[i] != name || argc.map_or(false, |a| FTAB_ARGC[i] != a) {
-                rep.fail("impl_vs_spec", "ftab_golden", &input, &format!("{} {}", FTAB[i], FTAB_ARGC[i]), "", &format!("{name} {argc:?}"));
+            let t = tab();
+            if t.names[i] != name || argc.map_or(false, |a| t.argc[i] != a) {
+                rep.fail("impl_vs_spec", "ftab_golden", &input, &format!("{} {}", t.names[i], t.argc[i]), "", &format!("{name} {argc:?}"));
             }
         }
         // (2) every function index
         let mut rng = Rng::new(args.seed);
         let ctx0 = Ctx { sheets: vec!["S1".into()], names: vec![], xtis: vec![0] };
         let o = GenOpts { wide: false };
-        for idx in 0..FTAB_LEN {
-            let argc = FTAB_ARGC[idx] as usize;
+        for idx in 0..tab().names.len() {
+            let argc = tab().argc[idx] as usize;
             if argc <= 30 {
                 let args = (0..argc).map(|_| gen_leaf(&mut rng, &ctx0, &o)).collect();
                 report_expr_case(&Expr::Func(rng.below(3) as u8, idx as u16, args), &ctx0, &mut drv, &mut rep, &mut shrunk);
@@ -2448,6 +2702,20 @@ fn main() {
         }
     }
     rep.add("driver_requests", drv.requests);
+    #[cfg(not(feature = "hooks"))]
+    {
+        rep.add("skipped.hooks_unavailable.stream_not_presentable_in_a_file", UNREACHABLE.load(std::sync::atomic::Ordering::Relaxed));
+        rep.notes.push(
+            "built without verif-hooks: no stage skipped, the unit-level stages ran through the public API instead — every token \
+             stream (expression trees, every function index, raw / mutated streams, deep nesting) as the formula of a one-cell \
+             xls / xlsb workbook read with worksheet_formula; defined-name formulas through the Lbl record and defined_names(); \
+             the column sweep covers 0..=16383 (the PtgRef column field) instead of 0..=65535 and `col` cases above 16383 are \
+             skipped; function names / arities come from the table the translator read from the source (driver request ftab) \
+             instead of the crate's constants; streams longer than a FORMULA record and contexts without sheets whose XTI \
+             table names sheet 0 are skipped (counter skipped.hooks_unavailable.*)"
+                .into(),
+        );
+    }
     rep.notes.push("function names/arity: golden snapshot of FTAB/FTAB_ARGC (translated into Gen/Ftab.lean on every run) + 96 entries checked against names written down from MS-XLS".into());
     rep.write(&args.out);
 }
